@@ -37,9 +37,9 @@ TRUSTED_BASE = ['hand-written Gallina model coq/Ext/Model.v of get_subset / from
 ASSUMPTIONS = ['values: Python == coincides with structural equality (generators never mix 1 / 1.0 / True, no NaN)',
                'domain of C05_split_merge / C05_chain: valid, nondegenerate (no key in a varying class of multiplicity 1), canonical in '
                'the literal sense (every key at its simplest class, no key that is None everywhere), base dictionaries tight, NO '
-               'trailing singleton dimension (get_subset trims them: C05_split_merge_trailing1_refuted; open findings N2/N4), a slice '
+               'trailing singleton dimension (get_subset trims them: C05_split_merge_trailing1_refuted = open finding N12, corpus case; also N2/N4), a slice '
                'dimension is recorded (5-D time round trips raise TypeError otherwise: C05_split_merge_no_slice_dim_refuted = open '
-               'finding N3), axis = slice dim, 3 or 4 with at least two positions; from_sequence gets the parent affine / slice dim or '
+               'finding N3, corpus case), axis = slice dim, 3 or 4 with at least two positions; from_sequence gets the parent affine / slice dim or '
                'leaves them out',
                'extensions that carry all-None keys as the global constant None come back identical up to the representation of those '
                'keys (C05_split_merge_mod_none)',
@@ -51,6 +51,9 @@ ASSUMPTIONS = ['values: Python == coincides with structural equality (generators
                'matches the image (same shape, slice dim_info = extension slice dim, same affine)']
 
 # ------------------------------------------------------------------------------------------------ extension level
+
+SIG_N12 = 'ext-rt/4D-trailing1/slice/wrong-value'      # open: property=C05 (trailing singleton dim lost by split -> merge)
+SIG_N3 = 'ext-rt/5D/time/TypeError'                    # open: property=C05 (no slice dimension, 5-D, along time)
 
 EXT_PATTERNS = ['const', 'vec', 'time', 'vol', 'slice', 'slice_time', 'irregular', 'none_heavy', 'const_none_some', 'late_change']
 
@@ -204,8 +207,15 @@ class ExtRoundtripPart:
     @staticmethod
     def signature(case, obs, msg):
         E = case['ext']
-        ax = 'slice' if case['dim'] == E['sdim'] else ('time' if case['dim'] == 3 else 'vector')
-        return 'ext-rt/%s/%s/%s' % (extlib.shape_family(E['shape']), ax, extlib.sig_of_exc(obs))
+        sh, dim = E['shape'], case['dim']
+        ax = 'slice' if dim == E['sdim'] else ('time' if dim == 3 else 'vector')
+        # the two open findings registered for C05 -- exactly their regions, exactly their strings
+        if extlib.trailing1(sh) and ax == 'slice' and 'ext' in obs and obs['ext']['shape'] != sh:
+            return 'ext-rt/%dD-trailing1/slice/wrong-value' % len(sh)                    # N12 (registered for 4-D)
+        if E['sdim'] is None and len(sh) == 5 and dim == 3 and obs.get('exc') == 'TypeError':
+            return SIG_N3
+        # everything else: strings that cannot collide with the registered ones
+        return 'ext-rt/%s/%s/%s' % (extlib.shape_family(sh), ax, ('exc:%s' % obs.get('exc')) if 'err' in obs else 'mismatch')
 
     @staticmethod
     def nontrivial(case, obs):
